@@ -10,14 +10,14 @@
 extern size_t __sanitizer_get_current_allocated_bytes (void);
 
 enum {
-  OP_NEW, OP_ADD_OK, OP_ADD_MISMATCH, OP_ADD_FLOAT, OP_ADD_UNKNOWN,
+  OP_NEW, OP_ADD_OK, OP_ADD_MISMATCH, OP_ADD_FLOAT, OP_ADD_UNKNOWN, OP_ADD_LATEFAIL,
   OP_COMPILE_DEFAULT, OP_COMPILE_SSE, OP_COMPILE_MMX, OP_COMPILE_C,
   OP_TAKE, OP_RESET, OP_RUN, OP_EMULATE,
   OP_EX_NEW, OP_EX_RUN, OP_EX_EMULATE, OP_EX_FREE,
   OP_RUN_CODE, OP_EMULATE_CODE, OP_FREE_CODE, OP_FREE_PROGRAM, OP_N
 };
 static const char *opname[] = {
-  "new", "add_ok", "add_mismatch", "add_float", "add_unknown",
+  "new", "add_ok", "add_mismatch", "add_float", "add_unknown", "add_latefail",
   "compile_default", "compile_sse", "compile_mmx", "compile_c",
   "take_code", "reset", "run", "emulate",
   "ex_new", "ex_run", "ex_emulate", "ex_free",
@@ -27,7 +27,7 @@ static const char *opname[] = {
 /* ---- reference model (legality + expectations) ---- */
 typedef struct {
   int prog;			/* program object exists */
-  int ninsn, last_float, has_float, has_mismatch, has_unknown;
+  int ninsn, last_float, has_float, has_mismatch, has_unknown, has_late;
   int compiled;			/* 0 never, 1 non-fatal result, 2 fatal result */
   int runnable;			/* last compile non-fatal, no take/reset since */
   int sticky;			/* a failed compile leaves its error on the program until reset: further compiles are refused */
@@ -40,7 +40,7 @@ static int legal (const Model * m, int op)
 {
   switch (op) {
     case OP_NEW: return !m->prog;
-    case OP_ADD_OK: case OP_ADD_MISMATCH: case OP_ADD_FLOAT: case OP_ADD_UNKNOWN:
+    case OP_ADD_OK: case OP_ADD_MISMATCH: case OP_ADD_FLOAT: case OP_ADD_UNKNOWN: case OP_ADD_LATEFAIL:
       /* also after a clean compile: the program is extended and has to be compiled again before it is run */
       if (m->compiled) return m->prog && m->compiled == 1 && !m->sticky && m->ninsn < 2 && op != OP_ADD_UNKNOWN;
       return m->prog && m->ninsn < 2 && !(op == OP_ADD_UNKNOWN && m->has_unknown);
@@ -62,10 +62,13 @@ static int legal (const Model * m, int op)
 static void step_model (Model * m, int op, int result_class)
 {
   switch (op) {
-    case OP_NEW: m->prog = 1; m->sticky = 0; m->ninsn = 0; m->last_float = m->has_float = m->has_mismatch = m->has_unknown = 0; m->compiled = 0; m->runnable = 0; break;
+    case OP_NEW: m->prog = 1; m->sticky = 0; m->ninsn = 0; m->last_float = m->has_float = m->has_mismatch = m->has_unknown = m->has_late = 0; m->compiled = 0; m->runnable = 0; break;
     case OP_ADD_OK: m->ninsn++; m->last_float = 0; m->runnable = 0; break;
     case OP_ADD_MISMATCH: m->ninsn++; m->has_mismatch = 1; m->runnable = 0; break;
     case OP_ADD_FLOAT: m->ninsn++; m->last_float = 1; m->has_float = 1; m->runnable = 0; break;
+    /* an instruction every x86 back end has a rule for, but whose rule gives up while emitting code (offset not a constant):
+     * the compile fails late, non-fatally; the result is d1 = s1 (offset parameter 0) */
+    case OP_ADD_LATEFAIL: m->ninsn++; m->last_float = 2; m->has_late = 1; m->runnable = 0; break;
     case OP_ADD_UNKNOWN: m->has_unknown = 1; break;
     case OP_COMPILE_DEFAULT: case OP_COMPILE_SSE: case OP_COMPILE_MMX: case OP_COMPILE_C:
       m->compiled = result_class == 2 ? 2 : 1;
@@ -97,7 +100,8 @@ static int check_result (const orc_int32 * d, int isfloat, const char *what)
   int i;
   for (i = 0; i < 7; i++) {
     orc_int32 want;
-    if (isfloat) { union { float f; orc_int32 i; } a, b, r; a.i = S1[i]; b.i = S2[i]; r.f = a.f + b.f; want = r.i; }
+    if (isfloat == 2) want = S1[i];
+    else if (isfloat) { union { float f; orc_int32 i; } a, b, r; a.i = S1[i]; b.i = S2[i]; r.f = a.f + b.f; want = r.i; }
     else want = (orc_int32) ((orc_uint32) S1[i] + (orc_uint32) S2[i]);
     if (d[i] != want) { snprintf (failmsg, sizeof (failmsg), "%s: element %d is 0x%08x, expected 0x%08x", what, i, d[i], want); return 0; }
   }
@@ -125,11 +129,13 @@ static int do_op (int op, const Model * m, int *rclass)
   switch (op) {
     case OP_NEW:
       P = orc_program_new_dss (4, 4, 4);
+      orc_program_add_parameter (P, 4, "p1");
       orc_program_set_name (P, "life");
       break;
     case OP_ADD_OK: orc_program_append_str (P, "addl", "d1", "s1", "s2"); break;
     case OP_ADD_MISMATCH: orc_program_append_str (P, "addw", "d1", "s1", "s2"); break;
     case OP_ADD_FLOAT: orc_program_append_str (P, "addf", "d1", "s1", "s2"); break;
+    case OP_ADD_LATEFAIL: orc_program_append_str (P, "loadoffl", "d1", "s1", "p1"); break;
     case OP_ADD_UNKNOWN: orc_program_append_str (P, "nosuchop", "d1", "s1", "s2"); break;
     case OP_COMPILE_DEFAULT: case OP_COMPILE_SSE: case OP_COMPILE_MMX: case OP_COMPILE_C:
       if (op == OP_COMPILE_DEFAULT) r = orc_program_compile (P);
@@ -248,11 +254,11 @@ static long g_idx, n_seq, n_ops, n_viol, n_states;
 static char *seen[300];
 static int nseen;
 static int nsamples;
-static unsigned char state_seen[1 << 16];
+static unsigned char state_seen[1 << 18];
 
 static unsigned model_hash (const Model * m)
 {
-  return (unsigned) (m->prog | m->ninsn << 1 | m->last_float << 3 | m->has_mismatch << 4 | m->has_unknown << 5 | m->compiled << 6 | m->runnable << 8 | m->ex << 9 | m->code << 11 | m->code_float << 12 | m->sticky << 13 | m->has_float << 14);
+  return (unsigned) (m->prog | m->ninsn << 1 | (m->last_float & 1) << 3 | (m->last_float >> 1) << 15 | (m->code_float >> 1) << 16 | m->has_mismatch << 4 | m->has_unknown << 5 | m->compiled << 6 | m->runnable << 8 | m->ex << 9 | m->code << 11 | (m->code_float & 1) << 12 | m->sticky << 13 | m->has_float << 14 | m->has_late << 17);
 }
 
 static void viol (const char *cls, const int *seq, int n, const char *msg)
@@ -308,6 +314,7 @@ static int predicted_class (const Model * m, int op)
   if (m->has_mismatch || m->has_unknown || m->sticky) return 2;
   if (op == OP_COMPILE_C) return 1;
   if (op == OP_COMPILE_MMX && m->has_float) return 1;
+  if (m->has_late) return 1;	/* the x86 rules for loadoff give up on a non-constant offset while emitting code */
   return 0;
 }
 
